@@ -12,7 +12,7 @@ TRUSTED = [
     "fmt verbs, time.Format(RFC3339) for UTC times",
     "the scripted peer answers each command line with the next scripted chunk and swallows message data between 354 and the end marker",
 ]
-EXTS = [b"8BITMIME", b"SIZE 1000", b"DSN", b"SMTPUTF8", b"REQUIRETLS", b"AUTH PLAIN LOGIN", b"RRVS", b"STARTTLS"]
+EXTS = [b"8BITMIME", b"SIZE 1000", b"DSN", b"SMTPUTF8", b"REQUIRETLS", b"AUTH PLAIN LOGIN", b"RRVS", b"STARTTLS", b"BINARYMIME"]
 OK = b"250 2.0.0 ok\r\n"
 
 
@@ -30,7 +30,10 @@ def c15_cases(tier, rng):
     for exts in ext_sets:
         for mf in (list(subsets(mail_fields)) if tier == "thorough" else [m for m in subsets(mail_fields) if rng.random() < 0.3]):
             c = CC(exts=exts)
-            c.mail(b"s@x.org", dict(mf))
+            mo = dict(mf)
+            if rng.random() < 0.5:
+                mo["body"] = rng.choice([b"7BIT", b"8BITMIME", b"BINARYMIME", b"BINARYMIME", b"bogus"])
+            c.mail(b"s@x.org", mo)
             ro = dict(rng.choice(list(subsets(rcpt_fields))))
             if "orcpt" in ro:
                 ro["orcpttype"] = rng.choice([b"RFC822", b"UTF-8"])
@@ -43,6 +46,19 @@ def c15_cases(tier, rng):
         o = dict(size=7, ret=b"HDRS", envid=b"x", auth=b"a@b")
         c.mail(b"s@x", o); c.reply(OK); c.call("reset"); c.reply(ehlo(e2)); c.mail(b"s@x", o)
         c.rcpt(b"r@x", dict(notify=[b"NEVER"], rrvs=86400))
+        benign.append(c.case())
+    # after Reset the second EHLO is refused and the client falls back to HELO: nothing of the first EHLO reply may be used
+    for _ in range(60):
+        e1 = [e for e in EXTS if rng.random() < 0.7]
+        c = CC(exts=e1)
+        o = dict(size=7, ret=b"HDRS", envid=b"x", auth=b"a@b")
+        c.mail(b"s@x", o); c.reply(OK); c.call("reset")
+        c.reply(rng.choice([b"502 5.5.1 no EHLO\r\n", b"500 5.5.2 what\r\n"])); c.reply(b"250 peer\r\n")
+        if rng.random() < 0.5:
+            o = dict(o, reqtls=rng.choice([0, 1]), utf8=rng.choice([0, 1]))
+        c.mail(b"s@x", o)
+        c.rcpt(b"r@x", dict(notify=[b"NEVER"], rrvs=86400, orcpttype=b"RFC822", orcpt=b"o@x"))
+        c.call("ext", hx(b"DSN")); c.call("ext", hx(b"SIZE"))
         benign.append(c.case())
     # HELO fallback: EHLO refused with 502
     c = CC(hello=b"502 5.5.1 no EHLO\r\n"); c.reply(b"250 peer\r\n"); c.mail(b"s@x", dict(size=5, ret=b"FULL")); c.rcpt(b"r@x", dict(notify=[b"NEVER"]))
@@ -85,6 +101,17 @@ def c16_cases(tier, rng):
     for body in (b".\r\n.\r\n", b"a\n.\nb", b"x\r\n..\r\n.", b"\r\n.\r\nMAIL FROM:<bait@x>\r\n", b"lone\rcr", b"\r", b"a\r\r\nb"):
         for k in range(len(body) + 1):
             c = CC(); c.mail(b"s@x"); c.rcpt(b"r@x"); c.data([body[:k], body[k:]], OK, closes=2); cases.append(c.case())
+    # a stale handle: Close on the first message's writer again while the second message is being written
+    for b1 in (b"one\r\n", b"", b"x", b"a\r"):
+        for b2a, b2b in ((b"two ", b"more\r\n"), (b"", b"z"), (b"l1\r\n", b".l2\r\n"), (b"a\r", b"\nb")):
+            for final1 in (OK, b"554 5.6.0 rejected\r\n"):
+                c = CC(); c.mail(b"s@x"); c.rcpt(b"r@x"); c.data([b1], final1, closes=1)
+                c.mail(b"s2@x"); c.rcpt(b"r2@x")
+                c.peer.append(b"354 go ahead\r\n"); c.call("data")
+                c.call("write", hx(b2a)); c.call("close", "0"); c.call("write", hx(b2b))
+                c.peer.append(OK); c.call("close"); c.call("close", "0"); c.call("close", "1"); c.call("close")
+                c.reply(OK); c.call("noop")
+                cases.append(c.case())
     for _ in range(300 if tier == "quick" else 3000):
         n = rng.randrange(0, 9000)
         body = bytes(rng.choice(b"ab.\n") if rng.random() < 0.3 else rng.randrange(32, 256) for _ in range(n)).replace(b"\r", b"x")
@@ -153,6 +180,12 @@ def make(ID, rule, theorems, groups_fn, known=None, assumptions=()):
     ns["signature"] = lambda case, ans: case.split("\t")[1] + ":" + ",".join(sorted({c.split("/")[0] for c in case.split("\t")[3].split(";")}))
     ns["mutate"] = lambda case, rng: []
     ns["shrink"] = lambda case: []
-    ns["groups"] = lambda tier, rng: [Group(n, cs, theorems=theorems, monitor=mon) for n, cs, mon in groups_fn(tier, rng)]
+    def groups(tier, rng):
+        out = []
+        for g_ in groups_fn(tier, rng):
+            n, cs, mon = g_[:3]
+            out.append(Group(n, cs, theorems=theorems, monitor=mon, project=(g_[3] if len(g_) > 3 else None)))
+        return out
+    ns["groups"] = groups
     ns["replay_groups"] = lambda path: [Group("replay", [json.load(open(path))["case"]], theorems=theorems)]
     return ns
